@@ -462,6 +462,10 @@ impl<'a> Oracle<'a> {
                 Exp::Group(comps) => {
                     let w = format!("{what}.[[{}]]", comps[0].name);
                     self.bump("extension_groups_checked");
+                    // shape (C02): a group is one member of its own; its place must not be taken by a grouped component itself
+                    if comps.iter().any(|c| c.name == f.name) {
+                        self.disc("C02", "group-replaced-by-its-component", format!("n={}", comps.len()), format!("{w}: the member at the group's position is the grouped component `{}` itself (type `{}`)", f.name, f.ty));
+                    }
                     if !f.attrs.has("extension_addition_group") || f.attrs.has("extension_addition") {
                         self.disc("C05", "group-not-marked", "group".into(), format!("{w}: extension_addition_group={}", f.attrs.has("extension_addition_group")));
                     }
